@@ -1147,6 +1147,61 @@ func reachableFromWithout(from *ssa.BasicBlock, cut map[[2]*ssa.BasicBlock]bool,
 			}
 		}
 	}
+	// phis compared with a constant (a counter tested before and at the head of a loop): on the
+	// way on which the phi still holds the value an earlier test looked at, both tests agree
+	var constCmps []*ssa.BinOp
+	for _, b := range fn.Blocks {
+		if c, _ := condOf(b); c != nil {
+			if bo, ok := c.(*ssa.BinOp); ok {
+				if k, ok := bo.Y.(*ssa.Const); ok && !k.IsNil() && k.Value != nil {
+					constCmps = append(constCmps, bo)
+					if ph, ok := bo.X.(*ssa.Phi); ok {
+						nilPhis[ph] = true
+					}
+				}
+			}
+		}
+	}
+	for _, bo := range constCmps {
+		ph, ok := bo.X.(*ssa.Phi)
+		if !ok {
+			continue
+		}
+		for _, e := range ph.Edges {
+			for _, o := range constCmps {
+				if o != bo && o.Op == bo.Op && o.X == e {
+					uses[o] += 2
+					uses[bo] += 2
+				}
+			}
+		}
+	}
+	sameTest := func(c ssa.Value, pv map[*ssa.Phi]ssa.Value) ssa.Value {
+		bo, ok := c.(*ssa.BinOp)
+		if !ok {
+			return c
+		}
+		ph, ok := bo.X.(*ssa.Phi)
+		if !ok {
+			return c
+		}
+		v, ok := pv[ph]
+		if !ok {
+			return c
+		}
+		k, ok := bo.Y.(*ssa.Const)
+		if !ok || k.Value == nil {
+			return c
+		}
+		for _, o := range constCmps {
+			if o != bo && o.Op == bo.Op && o.X == v {
+				if ok2, isK := o.Y.(*ssa.Const); isK && ok2.Value != nil && constant.Compare(ok2.Value, token.EQL, k.Value) {
+					return o
+				}
+			}
+		}
+		return c
+	}
 	nilness := func(v ssa.Value) (bool, bool) { // (isNil, known)
 		switch x := v.(type) {
 		case *ssa.Const:
@@ -1251,7 +1306,13 @@ func reachableFromWithout(from *ssa.BasicBlock, cut map[[2]*ssa.BasicBlock]bool,
 				continue
 			}
 			next := asg
-			if c != nil && len(b.Succs) == 2 && uses[c] > 1 && b.Succs[0] != b.Succs[1] {
+			if c != nil {
+				if c2 := sameTest(c, pv); c2 != c {
+					c = c2
+					uses[c] += 2
+				}
+			}
+			if c != nil && len(b.Succs) == 2 && (uses[c] > 1) && b.Succs[0] != b.Succs[1] {
 				val := (i == 0) != neg // value of c on this edge
 				if old, ok := asg[c]; ok {
 					if old != val {
